@@ -87,8 +87,9 @@ fn main() {
     // fragments than the tails above reach, bases with an empty path, and non-ASCII characters before the cut
     let bases2 = ["s://h/a/b/c/d", "s://h/a/b/c/d?q", "s://h/a/b/c/d?q#f", "s://h/a/b/c/d#f", "s://h/a/", "s://h/a/?q", "s://h/", "s://h/?q#f",
         "s://h", "s://h?q", "s://h#f", "s://h?q#f", "s:", "s:?q", "s:?q#f", "s:#f", "s:a", "s:a?q", "s:/a?q#f", "s:a/b?q",
+        "s://h/a/c:d?q", "s://h/a/c:d", "s:a:b?q", "s:/c:d?", "s://h/b?q?r", "s://h/b?x/y?z", "s://h?q?r", "s:a/b?q?r#f?g", "s://h/b/./c?q", "s://h/a/../c?q",
         "s://\u{e9}\u{e9}/a", "s://\u{e9}\u{e9}/a?q", "s://h/\u{e9}/\u{fc}/d", "s://h/\u{e9}/\u{fc}/d?q#f", "s:\u{65e5}\u{672c}/\u{8a9e}/d", "s:\u{65e5}\u{672c}/\u{8a9e}/d?\u{e9}"];
-    let suffixes = ["", "?", "?q", "?qq", "?r", "#", "#f", "#ff", "#g", "?q#f", "?qq#ff", "?#", "?q#", "?\u{e9}", "#\u{e9}"];
+    let suffixes = ["", "?", "?q", "?qq", "?r", "#", "#f", "#ff", "#g", "?q#f", "?qq#ff", "?#", "?q#", "?\u{e9}", "#\u{e9}", "?q?r", "?q?x", "?x/y?z", "?x/y", "?q?"];
     for base_s in bases2 {
         let Ok(base) = BaseIri::new(base_s.to_string()) else { continue; };
         let stem = base_s.split(['?', '#']).next().unwrap();
